@@ -14,9 +14,10 @@ import (
 // structure, order of operations, which goroutine does what) is left exactly
 // as the generator printed it.
 type rewriter struct {
-	info *types.Info
-	errs []string
-	used bool // the current file references vsched
+	info   *types.Info
+	errs   []string
+	used   bool // the current file references vsched
+	pre122 bool // the current file's language version is below go1.22 (//go:build go1.21): no range-over-func, per-loop range variables
 }
 
 const vsName = "vsched"
